@@ -33,7 +33,7 @@ def _limit(as_gb):
     return f
 
 
-def run_harness(ck, binary, ops, tag, as_gb=6, timeout=300):
+def run_harness(ck, binary, ops, tag, as_gb=6, timeout=300, max_crashes=60):
     """Feed `ops` (one per line) to the harness binary.  Returns (lines, allocs): one result per op;
     the ` #alloc=N` suffix is split off.  If the child dies (fatal OOM, runtime throw, timeout) the op
     it was executing gets the result `crash` and a fresh child continues with the next op."""
@@ -66,8 +66,9 @@ def run_harness(ck, binary, ops, tag, as_gb=6, timeout=300):
             allocs.append(0)
             done += 1
         todo = todo[done:]
-        if rounds > 60:
-            res += ["crash"] * len(todo)
+        if rounds > max_crashes:
+            # enough dead children to report; the remaining ops are not executed (result `skipped`, no verdict)
+            res += ["skipped"] * len(todo)
             allocs += [0] * len(todo)
             break
     return res, allocs
